@@ -6,6 +6,7 @@ package corerad
 import (
 	"encoding/json"
 	"fmt"
+	"github.com/mdlayher/ndp"
 	"strings"
 	"time"
 
@@ -322,6 +323,57 @@ func c04Oracle(info *runInfo, res *verifsim.Result) {
 		if has := hasFwdLog(b); need != has {
 			res.Violate("C04.log", fmt.Sprintf("log:%s:%t", path, need),
 				"%s %s build at %s read forwarding=%t (configured lifetime %ds) but the not-forwarding log line is %s", b.ifn, path, ms(b.t1), b.fwd, conf, map[bool]string{true: "present", false: "missing"}[has])
+		}
+	}
+
+	// The consistency check is an RA-generating path too: a neighbour's (valid) RA
+	// handled while forwarding is off - and stays off - is compared with an RA
+	// whose router lifetime is 0, which the daemon says in its log. Nothing of
+	// that RA is on the wire, so the log line is what there is to see; a path
+	// that does not even look at the forwarding state writes none.
+	for _, g := range h.gens {
+		conf := configured[g.ifn]
+		if conf == 0 {
+			continue
+		}
+		for k, r := range g.rxs {
+			if _, ok := r.msg.(*ndp.RouterAdvertisement); !ok || r.hop != 255 {
+				continue
+			}
+			endSeq := 1 << 60
+			if k+1 < len(g.rxs) {
+				endSeq = g.rxs[k+1].seq
+			}
+			if g.endSeq != 0 && g.endSeq < endSeq {
+				endSeq = g.endSeq
+			}
+			if stopSeq != 0 && stopSeq < endSeq {
+				continue // the stop may cut the handling short
+			}
+			off, static, handled, logged, failed := !worldFwdAt(info, 0, g.ifn, r.seq), true, false, false, false
+			for i := range info.ev {
+				x := &info.ev[i]
+				if x.Seq <= r.seq || x.Seq >= endSeq {
+					continue
+				}
+				switch {
+				case x.K == "act.fwd" && x.If == g.ifn:
+					static = false
+				case x.K == "read.enter" && x.If == g.ifn && x.Gen == g.gen:
+					handled = true // the listener is back for the next message
+				case x.K == "log" && strings.HasPrefix(x.S, g.ifn+": ") && strings.Contains(strings.ToLower(x.S), "forwarding"):
+					logged = true
+				case strings.HasSuffix(x.K, ".exit") && x.Err != "" && x.If == g.ifn:
+					failed = true
+				}
+			}
+			if !off || !static || !handled || failed {
+				continue
+			}
+			paths["consistency-check-rx"] = true
+			if !logged {
+				res.Violate("C04.log", "log:consistency-check:rx", "%s: a neighbour's RA (from %s) was handled at %s while forwarding was off (configured lifetime %ds) but no RA with router lifetime 0 was generated for the comparison: the not-forwarding log line is missing", g.ifn, r.src, ms(r.t), conf)
+			}
 		}
 	}
 
